@@ -9,7 +9,8 @@ namespace Kopf.C20
 /-- label groups (only to split the preservation proofs over several files) -/
 def Label.grp : Label → Nat
   | .rootEnd _ _ => 1
-  | .rootStopping _ _ | .subStopping _ _ | .subEnd _ _ | .subSpawn _ | .withdraw _ _ | .subGone _ | .subCancel _ => 2
+  | .rootStopping _ _ | .subStopping _ _ | .subEnd _ _ | .subSpawn _ | .withdraw _ _ | .subGone _ | .subCancel _
+  | .orchStopPingers => 2
   | .workerStart _ | .workerEnd _ _ | .daemonSpawn _ | .daemonExit _ | .waiterEnd | .orphan | .orphanEnd
   | .act _ | .enter _ | .coreEnter | .coreEnd _ => 3
   | _ => 4
@@ -77,9 +78,14 @@ structure InvB (s : State) : Prop where
   withdrawnJ : ∀ i, i < s.nSubs → s.kind i = .pinger → (s.st (.sub i)).ended = true → s.withdrawn i = true
   stoppingNone : ∀ r f, s.st (.root r) = .stopping f none → r = .orchestrator
   subSome : ∀ i f, s.st (.sub i) ≠ .stopping f none
+  -- (`stop_in_order`, since /repo 26a293c: the keep-alives are spared by the orchestrator's first stop)
   orchStopSubs : (s.st (.root .orchestrator)).isStopping = true →
     ∀ i, i < s.nSubs → (s.st (.sub i)).live = true →
-      s.creq (.sub i) = true ∨ (s.st (.sub i)).isStopping = true
+      s.creq (.sub i) = true ∨ (s.st (.sub i)).isStopping = true ∨ (s.kind i = .pinger ∧ s.orchPing = false)
+  wkKind : ∀ w i, s.wk w = some (.sub i, .running) → s.kind i ≠ .pinger
+  pingOrch : s.orchPing = true →
+    (s.st (.root .orchestrator)).isStopping = true ∨ (s.st (.root .orchestrator)).ended = true
+  pingStreams : s.orchPing = true → ∀ j, j < s.nSubs → s.kind j ≠ .pinger → (s.st (.sub j)).live = false
 
 theorem InvB.init : InvB init := by
   constructor <;> simp [Kopf.C20.init, initSt]
@@ -147,6 +153,7 @@ structure InvD (cfg : Cfg) (s : State) : Prop where
   c : ∀ t, s.t0 = some t → stoppingPhase s → (s.st (.root .orchestrator)).isStopping = true →
     ∀ i, i < s.nSubs → (s.st (.sub i)).live = true →
       (s.creq (.sub i) = true ∧ s.now = t) ∨ (s.st (.sub i)).isStopping = true
+      ∨ (s.kind i = .pinger ∧ (s.orchPing = false ∨ (s.creq (.sub i) = true ∧ s.now ≤ t + cfg.E)))
   d : ∀ t, s.t0 = some t → stoppingPhase s → ∀ i f dl, i < s.nSubs → s.st (.sub i) = .stopping f (some dl) →
     dl ≤ t + G cfg
   e : ∀ t, s.t0 = some t → stoppingPhase s → (s.st (.root .startupCleanup)).live = true →
@@ -157,6 +164,13 @@ structure InvD (cfg : Cfg) (s : State) : Prop where
   hung : ∀ t dl, s.t0 = some t → s.rt = .hungWait dl → dl ≤ t + G cfg + cfg.C + cfg.H
   fin : ∀ t, s.t0 = some t → (s.rt = .stoppingHung ∨ s.rt = .cStoppingHung ∨ s.rt = .exited) →
     s.now ≤ t + G cfg + cfg.C + cfg.H
+  -- the two stops of the orchestrator are SEQUENTIAL (since /repo 26a293c): the streams deplete within `E`, the keep-alives are
+  -- cancelled after them (not later than `t + E`) and withdraw within `W` — still within `G = E + W + D`
+  dlStream : ∀ i f dl, i < s.nSubs → s.kind i ≠ .pinger → s.st (.sub i) = .stopping f (some dl) → dl ≤ s.now + cfg.E
+  dS : ∀ t, s.t0 = some t → stoppingPhase s → ∀ i f dl, i < s.nSubs → s.kind i ≠ .pinger →
+    s.st (.sub i) = .stopping f (some dl) → dl ≤ t + cfg.E
+  p : ∀ t, s.t0 = some t → stoppingPhase s → (s.st (.root .orchestrator)).isStopping = true → s.orchPing = false →
+    s.now ≤ t + cfg.E
 
 theorem InvD.init (cfg : Cfg) : InvD cfg init := by
   constructor <;> simp [Kopf.C20.init, initSt, stoppingPhase]
@@ -175,14 +189,17 @@ theorem InvD.now_eq_root {cfg : Cfg} {s : State} (hI : InvD cfg s) {t : Nat} {r 
 
 theorem InvD.now_eq_sub {cfg : Cfg} {s : State} (hB : InvB s) (hI : InvD cfg s) {t : Nat} {i : Nat}
     (ht : s.t0 = some t) (hp : stoppingPhase s) (hi : i < s.nSubs) (hst : s.st (.sub i) = .running) :
-    s.now = t := by
+    s.now = t ∨ (s.kind i = .pinger ∧ s.now ≤ t + cfg.E) := by
   have ho := hB.subOrch i hi (by simp [hst])
   cases hos : s.st (.root .orchestrator) with
-  | running => exact hI.now_eq_root ht hp (by decide) hos
+  | running => exact Or.inl (hI.now_eq_root ht hp (by decide) hos)
   | stopping f dl =>
     have := hI.c t ht hp (by simp [hos]) i hi (by simp [hst])
     simp [hst] at this
-    exact this.2
+    rcases this with h | ⟨hk, h | h⟩
+    · exact Or.inl h.2
+    · exact Or.inr ⟨hk, hI.p t ht hp (by simp [hos]) h⟩
+    · exact Or.inr ⟨hk, h.2⟩
   | _ => simp [hos] at ho
 
 theorem stoppingPhase_of_live {s : State} (hC : InvC s) (hn : s.rt ≠ .waiting)
@@ -240,6 +257,7 @@ structure InvT (cfg : Cfg) (s : State) : Prop where
   c2 : ∀ to, s.orchStopAt = some to → (s.st (.root .orchestrator)).isStopping = true →
     ∀ j, j < s.nSubs → (s.st (.sub j)).live = true →
       (s.creq (.sub j) = true ∧ s.now = to) ∨ (s.st (.sub j)).isStopping = true
+      ∨ (s.kind j = .pinger ∧ (s.orchPing = false ∨ (s.creq (.sub j) = true ∧ s.now ≤ to + cfg.E)))
   d2 : ∀ to, s.orchStopAt = some to → (s.st (.root .orchestrator)).isStopping = true →
     ∀ j f dl, j < s.nSubs → s.st (.sub j) = .stopping f (some dl) → dl ≤ to + G cfg
   whoRoot : ∀ tf r, s.rt = .waiting → s.tFail = some tf → s.failWho = some (.root r) →
@@ -257,6 +275,10 @@ structure InvT (cfg : Cfg) (s : State) : Prop where
         ∨ ((s.st (.root .orchestrator)).isStopping = true ∧ ∀ to, s.orchStopAt = some to → to ≤ tf + G cfg)
         ∨ (s.st (.root .orchestrator)).ended = true)))
   bound : ∀ tf, s.rt = .waiting → s.tFail = some tf → s.now ≤ tf + 2 * G cfg
+  d2S : ∀ to, s.orchStopAt = some to → (s.st (.root .orchestrator)).isStopping = true →
+    ∀ j f dl, j < s.nSubs → s.kind j ≠ .pinger → s.st (.sub j) = .stopping f (some dl) → dl ≤ to + cfg.E
+  p2 : ∀ to, s.orchStopAt = some to → (s.st (.root .orchestrator)).isStopping = true → s.orchPing = false →
+    s.now ≤ to + cfg.E
 
 theorem InvT.init (cfg : Cfg) : InvT cfg init := by
   constructor <;> simp [Kopf.C20.init, initSt, Root.guarded, Root.kind]
